@@ -21,7 +21,7 @@ REPO = os.environ.get("BSVERIF_REPO", "/repo")
 SCRATCH = os.environ.get("BSVERIF_SCRATCH", "/var/tmp/bsverif")
 HARNESS_DIR = os.path.join(VERIF, "harness")
 EVIDENCE_DIR = os.path.join(VERIF, "evidence")
-REPLAY_DIR = os.path.join(VERIF, "replays")
+REPLAY_DIR = os.environ.get("BSVERIF_REPLAYS", os.path.join(VERIF, "replays"))
 KNOWN_FILE = os.path.join(VERIF, "known_findings.txt")
 SCRATCH_REPO = os.path.join(SCRATCH, "repo")
 KANI_TARGET = os.path.join(SCRATCH, "kani-target")
@@ -72,6 +72,8 @@ class HarnessModule:
         self.stem = os.path.splitext(fname)[0]
         self.inject = None
         self.t7 = []
+        self.t7_keep = []
+        self.requires = []   # stems of helper modules (no harnesses of their own) to inject as well
         self.harnesses = []
         self._parse()
 
@@ -87,6 +89,8 @@ class HarnessModule:
         parts = p.split("/")
         if parts[-1] in ("mod", "lib"):
             parts = parts[:-1]
+        kw = {"type", "async", "match", "mod", "use", "fn", "impl", "loop", "move", "ref", "self", "struct", "trait"}
+        parts = [("r#" + x) if x in kw else x for x in parts]
         return "::".join(parts + [self.modname])
 
     def _parse(self):
@@ -98,6 +102,12 @@ class HarnessModule:
                     self.inject = s.split(":", 1)[1].strip()
                 elif s.startswith("//! t7:"):
                     self.t7 += [x.strip() for x in s.split(":", 1)[1].split(",") if x.strip()]
+                elif s.startswith("//! t7-keep-std:"):
+                    # "<file>: <regex>": lines of <file> matching <regex> keep std's HashMap/HashSet under T7
+                    f_, _, rx = s.split(":", 1)[1].strip().partition(":")
+                    self.t7_keep.append((f_.strip(), rx.strip()))
+                elif s.startswith("//! requires:"):
+                    self.requires += [x.strip() for x in s.split(":", 1)[1].split(",") if x.strip()]
                 elif s.startswith("//@"):
                     body = s[3:].strip()
                     if ":" not in body:
@@ -182,16 +192,34 @@ def snapshot_and_inject(mods):
                 problems.append(f"T7: no `use std::collections::...;` line in {rel}")
             else:
                 names = mm.group(1)
-                rep = (f"#[cfg(not(kani))]\nuse std::collections::{names};\n"
-                       f"#[cfg(kani)]\nuse crate::bsv_vecmap::{names};\n")
+                items = [x.strip() for x in names.strip("{}").split(",") if x.strip()]
+                modelled = [x for x in items if x in ("HashMap", "HashSet")]
+                rest = [x for x in items if x not in ("HashMap", "HashSet")]
+                rep = f"#[cfg(not(kani))]\nuse std::collections::{names};\n"
+                if modelled:
+                    rep += "#[cfg(kani)]\nuse crate::bsv_vecmap::{%s};\n" % ", ".join(modelled)
+                if rest:
+                    rep += "#[cfg(kani)]\nuse std::collections::{%s};\n" % ", ".join(rest)
                 text = text[:mm.start()] + rep + text[mm.end():]
+                for m in mods:
+                    for f_, rx in m.t7_keep:
+                        if f_ == rel:
+                            lines = text.split("\n")
+                            hit = False
+                            for i, ln in enumerate(lines):
+                                if re.search(rx, ln):
+                                    hit = True
+                                    lines[i] = re.sub(r"(?<![\w:])(HashMap|HashSet)<", r"std::collections::\1<", ln)
+                            if not hit:
+                                problems.append(f"T7: no line matching {rx!r} in {rel}")
+                            text = "\n".join(lines)
         if not text.endswith("\n"):
             text += "\n"
         if rel == "src/lib.rs":
             text += ('#[cfg(kani)] #[path = "%s/common/vecmap.rs"] pub mod bsv_vecmap;\n'
                      % HARNESS_DIR)
         for m in injected.get(rel, []):
-            text += '#[cfg(kani)] #[path = "%s"] mod %s;\n' % (m.file, m.modname)
+            text += '#[cfg(kani)] #[path = "%s"] pub(crate) mod %s;\n' % (m.file, m.modname)
         os.makedirs(os.path.dirname(os.path.join(SCRATCH_REPO, rel)), exist_ok=True)
         _write_if_changed(os.path.join(SCRATCH_REPO, rel), text)
     return tree_hash(), problems
@@ -329,8 +357,18 @@ def prepare(mods, harnesses):
             tail = ""
             try:
                 with open(blog) as f:
-                    lines = [l for l in f.read().splitlines() if l.startswith("error") or "-->" in l]
-                    tail = "; ".join(lines[:12])
+                    # error blocks only (warnings also carry "-->" lines and must not be mistaken for failures)
+                    out, keep = [], 0
+                    for l in f.read().splitlines():
+                        if l.startswith("error"):
+                            out.append(l)
+                            keep = 2
+                        elif keep and "-->" in l:
+                            out.append(l.strip())
+                            keep -= 1
+                        elif l.startswith("warning"):
+                            keep = 0
+                    tail = "; ".join(out[:12])
             except OSError:
                 pass
             return th, False, ["harness build failed against this tree: " + tail], dt, {}
@@ -584,8 +622,91 @@ def extract_inputs(trace):
         fn = s.get("sourceLocation", {}).get("function", "")
         if "any_raw" in fn and lhs == "var_0":
             v = s.get("value", {})
-            vals.append({"lhs": lhs[-60:], "fn": fn[-80:], "value": v.get("data", v.get("binary", str(v)[:80]))})
-    return vals[:200]
+            vals.append({"fn": fn[-80:], "value": v.get("data", v.get("name", str(v)[:80])),
+                         "bytes": _value_bytes(v)})
+    return vals[:400]
+
+
+def _value_bytes(v):
+    """little-endian bytes of a CBMC trace value (None if its layout is not plain)"""
+    if not isinstance(v, dict):
+        return None
+    if "binary" in v and isinstance(v.get("width"), int) and v["width"] % 8 == 0 and len(v["binary"]) == v["width"]:
+        b = v["binary"]
+        return [int(b[i:i + 8], 2) for i in range(len(b) - 8, -1, -8)]
+    if v.get("name") == "array" and "elements" in v:
+        out = []
+        for e in v["elements"]:
+            eb = _value_bytes(e.get("value"))
+            if eb is None:
+                return None
+            out += eb
+        return out
+    return None
+
+
+def playback_source(h, violation):
+    """Kani concrete-playback test for one counterexample, or None when an input has no plain byte layout."""
+    rows = []
+    for x in violation.get("inputs") or []:
+        if x.get("bytes") is None:
+            return None
+        rows.append("        vec![%s], // %s = %s" % (", ".join(str(b) for b in x["bytes"]), x["fn"].split("::")[-1], x["value"]))
+    return ("\n#[test]\nfn bsv_playback_%s() {\n    let concrete_vals: Vec<Vec<u8>> = vec![\n%s\n    ];\n"
+            "    kani::concrete_playback_run(concrete_vals, %s);\n}\n" % (h.name, "\n".join(rows), h.name))
+
+
+def native_playback(h, violation, timeout=2700):
+    """Replay a counterexample against the natively compiled real code (cargo kani playback, dev profile).
+
+    Only for harnesses without stubs (a #[kani::stub] has no effect in a native build).
+    Returns (status, detail): reproduced | not-reproduced | unavailable.
+    """
+    src = playback_source(h, violation)
+    if src is None:
+        return "unavailable", "a symbolic input has no plain byte layout in the trace"
+    pdir = os.path.join(SCRATCH, "playback")
+    os.makedirs(pdir, exist_ok=True)
+    pfile = os.path.join(pdir, h.module.stem + ".rs")
+    with open(h.module.file) as f:
+        text = f.read()
+    with open(pfile, "w") as f:
+        f.write(text + src)
+    target = os.path.join(SCRATCH_REPO, h.module.inject)
+    plog = os.path.join(pdir, h.name + ".log")
+    with Lock("build"):
+        with open(target) as f:
+            orig = f.read()
+        needle = '#[path = "%s"]' % h.module.file
+        if needle not in orig:
+            return "unavailable", "harness module is not injected in the scratch copy"
+        with open(target, "w") as f:
+            f.write(orig.replace(needle, '#[path = "%s"]' % pfile))
+        try:
+            cmd = ["cargo", "kani", "playback", "-Z", "concrete-playback", "--", "bsv_playback_" + h.name]
+            with open(plog, "w") as lf:
+                try:
+                    rc = subprocess.run(cmd, cwd=SCRATCH_REPO, env=ENV, stdout=lf, stderr=subprocess.STDOUT,
+                                        timeout=timeout).returncode
+                except subprocess.TimeoutExpired:
+                    return "unavailable", "native playback build timed out"
+        finally:
+            with open(target, "w") as f:
+                f.write(orig)
+    with open(plog) as f:
+        out = f.read()
+    m = re.search(r"test result: (\w+)\. (\d+) passed; (\d+) failed", out)
+    if not m:
+        return "unavailable", "native playback did not build or run; see " + plog
+    if int(m.group(3)) >= 1:
+        msg = ""
+        mm = re.search(r"panicked at ([^\n]*)\n([^\n]*)", out)
+        if mm:
+            msg = (mm.group(1) + " " + mm.group(2))[:200]
+        return "reproduced", msg
+    if int(m.group(2)) >= 1:
+        return "not-reproduced", "the native test passed with the counterexample's inputs"
+    return "unavailable", "the playback test was not found"
 
 
 def tolerated(h, fail):
